@@ -87,6 +87,7 @@ type xmlParser struct {
 	nsPos      int
 	attrs      []XmlAttribute
 	attrPos    int
+	depth      int
 	hasPending bool
 	pendingTok xml.Token
 	pendingErr error
@@ -133,6 +134,7 @@ func (x *xmlParser) Pull() (node.Node, bool, error) {
 
 	switch n := tok.(type) {
 	case xml.StartElement:
+		x.depth++
 		x.namespaces = createXmlNamespaces(n.Attr)
 		x.attrs = createXmlAttrs(n.Attr)
 		return XmlElement{
@@ -157,6 +159,11 @@ func (x *xmlParser) Pull() (node.Node, bool, error) {
 			break
 		}
 
+		if x.depth == 0 && isXmlWhitespace(value) {
+			// White space outside the document element is not part of the tree.
+			return x.Pull()
+		}
+
 		return XmlCharData{
 			value: value,
 		}, false, nil
@@ -175,11 +182,24 @@ func (x *xmlParser) Pull() (node.Node, bool, error) {
 			value:  string(n.Inst),
 		}, false, nil
 	case xml.EndElement:
+		x.depth--
 		return nil, true, nil
 	}
 
 	// Directives (e.g. <!DOCTYPE ...>) are not nodes; skip them.
 	return x.Pull()
+}
+
+func isXmlWhitespace(s string) bool {
+	for i := 0; i < len(s); i++ {
+		switch s[i] {
+		case ' ', '\t', '\r', '\n':
+		default:
+			return false
+		}
+	}
+
+	return true
 }
 
 func createXmlNamespaces(attrs []xml.Attr) []XmlNamespace {
